@@ -602,6 +602,10 @@ impl Triangulation3D {
         let neighbour_aopp_i = self.triangles[neighbour_index].neighbour(aopp_edge);
         let constrain_aopp = self.triangles[neighbour_index].is_constrained(aopp_edge);
 
+        // refuse BEFORE mutating: the two new triangles must be constructible
+        Triangle3D::new(vertex_a, opposite, vertex_c)?;
+        Triangle3D::new(vertex_c, opposite, vertex_b)?;
+
         /* THE ORIGINAL TRIANGLES, AND PUSH THE NEW ONES */
         self.invalidate(index)?;
         self.invalidate(neighbour_index)?;
@@ -681,6 +685,18 @@ impl Triangulation3D {
 
         // Neighbour... this is not necessarily there
         let nei_i = self.triangles[triangle_index].neighbour(edge_to_split);
+
+        // refuse BEFORE mutating: every child of both hemispheres must be constructible
+        for idx in std::iter::once(triangle_index).chain(nei_i) {
+            let t = self.triangles[idx].triangle;
+            let ab_i = t
+                .get_edge_index_from_segment(&segment_to_split)
+                .ok_or_else(|| "Could not get index from segment".to_string())?;
+            let ab = t.segment(ab_i)?;
+            let c = self.get_opposite_vertex(&t, ab)?;
+            Triangle3D::new(ab.start(), p, c)?;
+            Triangle3D::new(p, ab.end(), c)?;
+        }
 
         // get points
         let mut process_hemisphere = |index: usize| -> Result<(usize, usize), String> {
@@ -836,6 +852,11 @@ impl Triangulation3D {
         let edge = Edge::from_i(edge);
         let neighbour_ca_i = self.triangles[i].neighbour(edge);
         let constrain_ca = self.triangles[i].is_constrained(edge);
+
+        // refuse BEFORE mutating: the three children must be constructible
+        Triangle3D::new(vertex_c, vertex_a, point)?;
+        Triangle3D::new(vertex_a, vertex_b, point)?;
+        Triangle3D::new(vertex_b, vertex_c, point)?;
 
         // Invalidate this triangle.
         self.invalidate(i)?;
